@@ -40,7 +40,9 @@ type maddr struct{ Name, Addr string }
 var c06Names = []string{"", "", "Plain Name", "Müller, Hans", `O'Neil "The Boss"`, "Semi; Colon: <angle>", "日本 太郎", "back\\slash", "  spaced   out  ", "(paren) name", "dot. name.", "a@b in name", "Ünï Cödé Näme That Is Rather Long And Needs Folding Somewhere Along The Line",
 	"Doe, John", "Smith; Jane: Dr.", "a,b,c", "Last, First \"Nick\" Middle", "comma, and <angle>, twice",
 	// runes that Go's strconv / unicode.IsPrint treat as not printable, but that are ordinary name characters
-	"山田\u3000太郎", "No\u00a0Break Space", "zero\u200dwidth joiner", "soft\u00adhyphen", "family 👨\u200d👩\u200d👧", "Support\tDesk"}
+	"山田\u3000太郎", "No\u00a0Break Space", "zero\u200dwidth joiner", "soft\u00adhyphen", "family 👨\u200d👩\u200d👧", "Support\tDesk",
+	// runs of blanks, also where a long field is folded
+	"Doe,  Jane", "A Rather Long  Display Name  With  Double  Blanks That  Must  Be Folded  Somewhere Along   The Way", "Ünï  Cödé   with  runs"}
 var c06Invalid = []string{"not an address", "a@", "@b.example", "a b@c.example", "<>", "", "x@y@z", "Name <broken", "\"unterminated <a@b.example>"}
 
 // c06Spec is the addr-spec of a mailbox (local part + "@" + domain, split at the last "@"): the local part is written
@@ -420,6 +422,15 @@ func runC06Case(r *ev.Run, c c06Case) {
 			}
 			if as[i].Spec() != want[i].Addr || mimeread.CollapseWS(as[i].Name) != mimeread.CollapseWS(want[i].Name) {
 				viol("header-value:"+field, fmt.Sprintf("%s[%d] parses back to %q <%s>, set was %q <%s>", field, i, as[i].Name, as[i].Spec(), want[i].Name, want[i].Addr), got[0])
+			} else if as[i].Name != want[i].Name {
+				// blanks inside a display name travel in a quoted-string or an encoded-word: a reader gets them back as they were set
+				if strings.TrimSpace(as[i].Name) != strings.TrimSpace(want[i].Name) {
+					viol("header-value-blanks:"+field, fmt.Sprintf("%s[%d]: the blanks inside the display name changed: parses back to %q, set was %q", field, i, as[i].Name, want[i].Name), got[0])
+				} else {
+					r.Count("display_names_differing_in_outer_blanks_only", 1)
+				}
+			} else if strings.Contains(want[i].Name, "  ") {
+				r.Count("display_names_with_blank_runs_read_back_exactly", 1)
 			}
 			if serr == nil && i < len(std) && (std[i].Address != as[i].Spec() || mimeread.CollapseWS(std[i].Name) != mimeread.CollapseWS(as[i].Name)) {
 				viol("reader-disagreement:"+field, fmt.Sprintf("net/mail reads %q <%s>, the harness parser %q <%s>", std[i].Name, std[i].Address, as[i].Name, as[i].Spec()), got[0])
